@@ -18,14 +18,31 @@ EXPLANATION = (
 CP = "hta.analyzers.critical_path_analysis"
 
 
+_longest_path = c08.longest_path_call
+
+
+def _returns_value(d, node) -> bool:
+    """every non-None value returned by helper d is `node` (directly or through one local name)"""
+    rets = [r for r in walk_no_nested(d) if isinstance(r, ast.Return) and r.value is not None and not (isinstance(r.value, ast.Constant) and r.value.value is None)]
+    if not rets:
+        return False
+    for r in rets:
+        v = r.value
+        if isinstance(v, ast.Name):
+            ds = H.defs_of(d, v.id)
+            v = ds[0] if len(ds) == 1 else v
+        if v is not node:
+            return False
+    return True
+
+
 def check_reset_before_accumulate(db, chk, rule: str) -> None:
     """(also C19: a restored graph is recomputed by the same method; a set that is only ever added to mixes the edges of two computations)"""
     m = db.mod(CP)
     f = m.func("CPGraph.critical_path")
     where = m.loc(f)
-    lp = [n for n in ast.walk(f) if isinstance(n, ast.Call) and call_name(n).endswith("dag_longest_path")]
-    if len(lp) != 1:
-        raise AnalysisError("critical_path: the longest-path call was not found")
+    lp0, site, _hd = _longest_path(m, f)
+    lp = [site]
     # ---------------------------------------------------------------- R3 reset before accumulate
     resets = [s for t, val, s in H.assignments(f) if H.is_self_attr(t, "critical_path_edges_set") and isinstance(val, ast.Call) and H.name_id(val.func) == "set" and not val.args]
     accum = [n for n in ast.walk(f) if isinstance(n, ast.Call) and isinstance(n.func, ast.Attribute) and n.func.attr in ("add", "update") and H.is_self_attr(n.func.value, "critical_path_edges_set")]
@@ -53,9 +70,8 @@ def run(db, chk) -> None:
     # ---------------------------------------------------------------- R1 key agreement
     cs = [c for c in H.calls(ae) if isinstance(c.func, ast.Attribute) and c.func.attr == "add_edge"]
     wkeys = {k.arg: ast.unparse(k.value) for c in cs for k in c.keywords}
-    lp = [n for n in ast.walk(f) if isinstance(n, ast.Call) and call_name(n).endswith("dag_longest_path")]
-    if len(lp) != 1:
-        raise AnalysisError("critical_path: the longest-path call was not found")
+    lp0, site, lp_helper = _longest_path(m, f)
+    lp = [lp0]
     wk = [lit(k.value) for k in lp[0].keywords if k.arg == "weight"]
     lp_key = wk[0] if wk else (lit(lp[0].args[1]) if len(lp[0].args) > 1 else "weight")
     chk.ob("C09.R1-key-agreement", "the attribute written per edge at construction is the attribute the longest-path computation maximises", wkeys.get("weight") == "edge.weight" and lp_key == "weight", where,
@@ -80,7 +96,12 @@ def run(db, chk) -> None:
     extra = sorted(kw.arg for kw in lp[0].keywords if kw.arg not in ("weight", "topo_order", "default_weight"))
     chk.ob("C09.R1-key-agreement", "no other argument changes what is maximised", not extra and len(lp[0].args) <= 4, where, found=extra, accepted="G, weight[, default_weight, topo_order]", nontrivial=False)
     tgt = [t for t, val, s in H.assignments(f) if H.is_self_attr(t, "critical_path_nodes")]
-    src_ok = any(val is lp[0] for t, val, s in H.assignments(f) if H.is_self_attr(t, "critical_path_nodes"))
+    def _is_path(val):
+        if isinstance(val, ast.Name):
+            ds = H.defs_of(f, val.id)
+            val = ds[0] if len(ds) == 1 else val
+        return val is lp0 or (val is site and lp_helper is not None and _returns_value(lp_helper, lp0))
+    src_ok = any(_is_path(val) for t, val, s in H.assignments(f) if H.is_self_attr(t, "critical_path_nodes"))
     chk.ob("C09.R1-key-agreement", "critical_path_nodes receives the longest path", src_ok, where, found=len(tgt), accepted="self.critical_path_nodes = nx.dag_longest_path(...)")
     # stores into edge attributes in _validate_graph
     stores = []
@@ -121,12 +142,17 @@ def run(db, chk) -> None:
     check_reset_before_accumulate(db, chk, "C09.R3-reset-before-accumulate")
     # ---------------------------------------------------------------- R5 the path is recomputed on every call
     guards = []
-    cur = m.parent.get(id(lp[0]))
-    while cur is not None and cur is not f:
-        if isinstance(cur, (ast.If, ast.IfExp, ast.While, ast.For)):
-            guards.append(ast.unparse(cur.test if hasattr(cur, "test") else cur.iter)[:80])
-        cur = m.parent.get(id(cur))
-    early = [r for r in walk_no_nested(f) if isinstance(r, ast.Return) and r.lineno < lp[0].lineno]
+    for node, top in ((lp0, lp_helper or f), (site, f)):
+        cur = m.parent.get(id(node))
+        while cur is not None and cur is not top:
+            if isinstance(cur, (ast.If, ast.IfExp, ast.While, ast.For)):
+                guards.append(ast.unparse(cur.test if hasattr(cur, "test") else cur.iter)[:80])
+            cur = m.parent.get(id(cur))
+        if node is site:
+            break
+    early = [r for r in walk_no_nested(f) if isinstance(r, ast.Return) and r.lineno < site.lineno]
+    if lp_helper is not None:
+        early += [r for r in walk_no_nested(lp_helper) if isinstance(r, ast.Return) and r.lineno < lp0.lineno]
     chk.ob("C09.R5-always-recomputed", "every call recomputes the longest path on the current graph: no condition, memo or early return in front of the computation (validation failure raises)", not guards and not early, where,
            found={"conditions": guards, "early_returns": [r.lineno for r in early]}, accepted="unconditional nx.dag_longest_path after validation",
            why="a memo keyed on counts / total weight keeps the stale path after a what-if re-weighting that moves weight between edges")
@@ -159,23 +185,55 @@ def _pair_form(f):
         itv = its[0][0]
         first = [r for st in f.body for r in [H.match(f"$u = next({itv})", st)] if r is not None]
         if len(first) == 1:
-            b = first[0]
-            stmts = [s for s in ast.walk(loops[0]) if isinstance(s, (ast.Assign, ast.Expr))]
-            stmts.sort(key=lambda s: s.lineno)
-            r = H.match_seq([f"$v = next({itv})", "$e = self.edges[$u, $v]['object']", "self.critical_path_edges_set.add($e)", "$u = $v"], stmts, b)
+            loop = loops[0]
+            _nm = lambda x: x if isinstance(x, str) else H.name_id(x)
+            uname = _nm(first[0].get("__mv_u"))
+            stmts = [s for s in ast.walk(loop) if isinstance(s, (ast.Assign, ast.Expr))]
+            stmts.sort(key=lambda s: (s.lineno, s.col_offset))
+            shown = [ast.unparse(s)[:80] for s in stmts]
             nexts = [n for n in ast.walk(f) if isinstance(n, ast.Call) and H.name_id(n.func) == "next"]
+            # the current element: the target of `for v in it`, or `v = next(it)` inside a while loop
+            vname, vdef_line, want_nexts = None, None, None
+            if isinstance(loop, ast.For) and H.name_id(loop.iter) == itv and isinstance(loop.target, ast.Name) and not loop.orelse:
+                vname, vdef_line, want_nexts = loop.target.id, loop.lineno, 1
+            elif isinstance(loop, ast.While):
+                vd = [(r, s) for s in stmts for r in [H.match(f"$v = next({itv})", s)] if r is not None]
+                if len(vd) == 1:
+                    vname, vdef_line, want_nexts = _nm(vd[0][0].get("__mv_v")), vd[0][1].lineno, 2
+            if uname is None or vname is None or len(nexts) != want_nexts:
+                return {"ok": None, "found": ["pairing idiom not recognised"] + shown}
+            adds = [x for x in ast.walk(loop) if isinstance(x, ast.Call) and isinstance(x.func, ast.Attribute) and x.func.attr == "add" and H.is_self_attr(x.func.value, "critical_path_edges_set")]
             # every pair contributes its edge: the add is not under a condition inside the loop
             cond = []
-            for a in [x for x in ast.walk(loops[0]) if isinstance(x, ast.Call) and isinstance(x.func, ast.Attribute) and x.func.attr == "add" and H.is_self_attr(x.func.value, "critical_path_edges_set")]:
-                par = {id(ch): pn for pn in ast.walk(loops[0]) for ch in ast.iter_child_nodes(pn)}
-                cur = par.get(id(a))
-                while cur is not None and cur is not loops[0]:
+            par = {id(ch): pn for pn in ast.walk(loop) for ch in ast.iter_child_nodes(pn)}
+            for a_ in adds:
+                cur = par.get(id(a_))
+                while cur is not None and cur is not loop:
                     if isinstance(cur, (ast.If, ast.IfExp)):
                         cond.append(ast.unparse(cur.test)[:80])
                     cur = par.get(id(cur))
             if cond:
                 return {"ok": False, "found": [f"edge added only if {c}" for c in cond]}
-            return {"ok": r is not None and len(nexts) == 2, "found": [ast.unparse(s)[:80] for s in stmts]}
+            if len(adds) != 1 or len(adds[0].args) != 1:
+                return {"ok": None, "found": ["pairing idiom not recognised"] + shown}
+            arg = adds[0].args[0]
+            if isinstance(arg, ast.Name):
+                ds = [s.value for s in stmts if isinstance(s, ast.Assign) and H.name_id(s.targets[0]) == arg.id and s.lineno <= adds[0].lineno]
+                arg = ds[-1] if len(ds) == 1 else arg
+            r = H.match("self.edges[$a, $b]['object']", arg)
+            if r is None:
+                return {"ok": None, "found": ["edge lookup not recognised"] + shown}
+            pair = (_nm(r.get("__mv_a")), _nm(r.get("__mv_b")))
+            upd = [s for s in stmts if isinstance(s, ast.Assign) and H.name_id(s.targets[0]) == uname]
+            advance = [s for s in upd if H.name_id(s.value) == vname and s.lineno > adds[0].lineno]
+            other_upd = [s for s in upd if s not in advance]
+            if pair != (uname, vname):
+                return {"ok": False, "found": [f"edge looked up for ({pair[0]}, {pair[1]}), expected (previous, current) = ({uname}, {vname})"] + shown}
+            if not advance and not other_upd:
+                return {"ok": False, "found": [f"the previous node {uname} never advances"] + shown}
+            if other_upd or len(advance) != 1 or vdef_line > adds[0].lineno:
+                return {"ok": None, "found": ["pairing idiom not recognised"] + shown}
+            return {"ok": True, "found": shown}
     # idiom (b): for u, v in zip(path, path[1:]): ... self.edges[u, v]["object"]
     for n, b in H.find_match("zip($$p, $$p[1:])", f):
         if "critical_path_nodes" in ast.unparse(b["__mvx_p"]) or isinstance(b["__mvx_p"], ast.Name):
